@@ -433,6 +433,17 @@ def b_setattr(it, args, kw):
 def b_hasattr(it, args, kw):
     from .interp import PyExc
 
+    obj, name = args[0], args[1]
+    if isinstance(name, str) and name.startswith("__") and name.endswith("__"):
+        # dunder probes on plain data (`hasattr(v, "__iter__")`): answered from the Python type of the value
+        if isinstance(obj, (list, tuple, dict, set, frozenset, str, bytes, int, float, bool)) or obj is None:
+            return hasattr(obj, name)
+        if isinstance(obj, SStr):
+            return hasattr("", name)
+        if isinstance(obj, (SInt, SBool, SReal)):
+            return hasattr(0, name)
+        if isinstance(obj, SymSeq):
+            return hasattr([], name)
     try:
         it.getattr(args[0], args[1])
         return True
